@@ -1902,11 +1902,23 @@ func (t *FnTrans) convert(x *ssa.Convert) {
 	case t.sortOf(from) == "Float" && tok:
 		t.abstr["float"] = true
 		t.havocVal(x)
-	case t.sortOf(from) == "Slice" && t.sortOf(to) == "Str":
+	case t.sortOf(from) == "Slice" && t.sortOf(to) == "Str" && isByteSlice(from):
 		// string(bytes): content function of the elements
 		t.bind(x, t.bytesToStr(a))
-	case t.sortOf(from) == "Str" && t.sortOf(to) == "Slice":
+	case t.sortOf(from) == "Slice" && t.sortOf(to) == "Str":
+		// string(runes): UTF-8 encoding, not modelled
+		t.abstr["runes-to-string"] = true
+		t.havocVal(x)
+	case t.sortOf(from) == "Str" && t.sortOf(to) == "Slice" && isByteSlice(to):
 		t.strToBytes(x, a)
+	case t.sortOf(from) == "Str" && t.sortOf(to) == "Slice":
+		// []rune(s): one element per code point - a new slice of at most len(s) and at least len(s)/4 elements
+		// (UTF-8 decoding itself is not modelled)
+		t.abstr["string-to-runes"] = true
+		r := t.allocRef()
+		n := t.newConst("runes", "Int")
+		t.assume(and(app("<=", n, app("slen", a)), app(">=", app("*", "4", n), app("slen", a)), app(">=", n, "0")))
+		t.bind(x, app("mk-slice", r, "0", n, n))
 	case t.sortOf(from) == t.sortOf(to):
 		t.vals[x] = t.val(x.X)
 	case fok && t.sortOf(to) == "Str":
@@ -2425,4 +2437,13 @@ func (t *FnTrans) convStruct(term string, From, To types.Type) (string, bool) {
 		args = append(args, a)
 	}
 	return app("mk_"+st, args...), true
+}
+
+func isByteSlice(T types.Type) bool {
+	sl, ok := T.Underlying().(*types.Slice)
+	if !ok {
+		return false
+	}
+	b, ok := sl.Elem().Underlying().(*types.Basic)
+	return ok && (b.Kind() == types.Uint8 || b.Kind() == types.Byte)
 }
